@@ -141,6 +141,7 @@ structure St where
   tokOnly : Bool := false
   wants : List (Str × Bool × Str × String) := []   -- key, nested?, original text, yaml kind
   implTyped : List (Str × List String) := []
+  wantc : List (Str × String × String) := []   -- key, expected container (encoded), yaml kind
   implStrmap : Option Val := none
 
 def St.env (s : St) : Env :=
@@ -157,13 +158,31 @@ def showTyped (v : Val) : String :=
     | some (some s) => s!"s{hexStr s};"
     | some none => "nil"
     | none => "err"
-  let nv := showOptStr (decodeNestedString v)
   let plain := sanitize false v
+  let nv := match plain with
+    | .other _ => "skip"
+    | _ => showOptStr (decodeNestedString v)
   let iv := match plain with
     | .float _ | .other _ => "skip"
     | _ => match decodeInt v with | some i => s!"{i}" | none => "err"
   let bv := match decodeBool v with | some true => "t" | some false => "f" | none => "err"
-  s!"s={sv} ns={sv} ps={ps} n={nv} a={showVal (decodeAny v)} i={iv} b={bv}"
+  let ss := match plain with
+    | .other _ => "skip"
+    | _ => match decodeStringSlice v with
+      | some l => showVal (.list (Vals.ofList (l.map .str)))
+      | none => "err"
+  let ms := match plain with
+    | .other _ => "skip"
+    | _ => match decodeStringMap v with
+      | some l => showVal (.map (KVs.ofList (l.map (fun (kv : Str × Str) => (kv.1, Val.str kv.2)))))
+      | none => "err"
+  let fl := match plain with
+    | .other _ => "skip"
+    | _ => match decodeFloat v with | some b => s!"B{floatHex b}" | none => "err"
+  let tx := match plain with
+    | .other _ => "skip"
+    | _ => showOptStr (decodeText v)
+  s!"s={sv} ns={sv} ps={ps} n={nv} ss={ss} ms={ms} fl={fl} tx={tx} a={showVal (decodeAny v)} i={iv} b={bv}"
 
 partial def hasExpanded : Val → Bool
   | .expanded .. => true
@@ -231,6 +250,18 @@ def checkWants (s : St) : Option String :=
             some s!"sig=C12/typed/string-field-lost-original-text/{kind}/{tname} key={hexStr k} want={want} got={got}"
         | none => some s!"sig=C12/harness/typed-field-missing {f}"))
 
+/-- stringy containers: every element / value that is a whole-value reference must be its original text -/
+def checkContainers (s : St) : Option String :=
+  s.wantc.findSome? (fun (k, want, kind) =>
+    match s.implTyped.find? (fun e => e.1 == k) with
+    | none => none
+    | some (_, fields) =>
+      let (f, tname) := if want.startsWith "l" then ("ss", "string-slice-element") else ("ms", "string-map-value")
+      match kv fields f with
+      | some got => if got == want then none else
+          some s!"sig=C12/typed/string-field-lost-original-text/{kind}/{tname} key={hexStr k} want={want} got={got}"
+      | none => some s!"sig=C12/harness/typed-field-missing {f}")
+
 def checkLeaks (s : St) : Option String :=
   match s.implStrmap with
   | some v => if hasExpanded v then some "sig=C12/typed/expanded-value-leaked/tostringmap" else
@@ -268,12 +299,28 @@ def handler : Handler St where
       match (if key = "-" then some [] else unhexStr key.toList), parseToks ts with
       | some k, some ts => ({ s with toks := s.toks ++ [(k, ts)] }, [])
       | _, _ => (s, ["obs bad-op"])
+    | ["wantc", key, enc, kind] =>
+      match (if key = "-" then some [] else unhexStr key.toList) with
+      | some k => ({ s with wantc := s.wantc ++ [(k, enc, kind)] }, [])
+      | none => (s, ["obs bad-op"])
     | [w, key, txt, kind] =>
       if w == "want" || w == "wantn" then
         match (if key = "-" then some [] else unhexStr key.toList), (if txt = "-" then some [] else unhexStr txt.toList) with
         | some k, some t => ({ s with wants := s.wants ++ [(k, w == "wantn", t, kind)] }, [])
         | _, _ => (s, ["obs bad-op"])
       else (s, ["obs bad-op"])
+    | "resolvex" :: rest =>
+      -- external-package harness (real envprovider): only what the public API shows
+      let hint := (kv rest "hint").getD "-"
+      match resolve s.env s.srcs.reverse with
+      | .error es =>
+        let names := es.map showErr
+        let pick := if names.contains hint then hint else names.headD "?"
+        (s, [s!"obs res err {pick}"])
+      | .ok m =>
+        let kvs := m.toList.mergeSort (fun a b => !strLt b.1 a.1)
+        (s, [s!"obs strmap {showVal (sanitize false (.map m))}"]
+            ++ kvs.map (fun kv => s!"obs typedx {hexStr kv.1} s={showOptStr (decodeString kv.2)} a={showVal (decodeAny kv.2)}"))
     | "resolve" :: rest =>
       let hint := (kv rest "hint").getD "-"
       let s := { s with tokOnly := kv rest "tokonly" == some "1" }
@@ -320,6 +367,9 @@ def handler : Handler St where
         ++ (match checkWants s with
             | some d => [s!"prop typed=FAIL {d}"]
             | none => ["prop typed=ok"])
+        ++ (match checkContainers s with
+            | some d => [s!"prop containers=FAIL {d}"]
+            | none => ["prop containers=ok"])
         ++ (match checkLeaks s with
             | some d => [s!"prop leaks=FAIL {d}"]
             | none => ["prop leaks=ok"])
